@@ -515,6 +515,7 @@ structure DKey where
   name : Bytes
   pk : Bytes
   tag : Nat        -- `KeyTag(key)`
+deriving DecidableEq
 
 /-- `usableDSCandidate` (the `keyMap[parentDS.KeyTag]` lookup is the tag test). -/
 def usableDSCandidate (limit : Nat) (d : DSRec) (k : DKey) : Bool :=
